@@ -772,5 +772,7 @@ def run(ck: Checker) -> None:
     ck.guard("R-XP-FIND", lambda: r_xp_compile_each(ck))
     ck.guard("R-XP-ELEMENTS", lambda: r_xp_elements(ck))
     ck.guard("R-XP-ONCE", lambda: r_xp_once(ck))
+    from .c17 import r_reusable
+    ck.guard("R-XP-ELEMENTS", lambda: r_reusable(ck))
     ck.require_count("R-XP-SHARED", 3)
     ck.require_count("R-XP-ANYWHERE", 3)
